@@ -149,6 +149,7 @@ type FE struct {
 	strOrder []string
 	paths    int
 	heapSorts map[string]string
+	npWhen    string // entry condition under which `nopanic own when` claims panic freedom
 	joinDisj  map[string][]string // join fact -> its disjuncts (for case splitting in the solver stage)
 	jmu       sync.Mutex
 	pending  map[*ssa.BasicBlock][]*State // states parked at join blocks (mergejoins)
